@@ -739,6 +739,14 @@ class Machine:
         if r and self.prog.items[r].kind == 'fn': return FnItem(c)
         m = re.match(r'^(\d+(?:\.\d+)?(?:[eE][-+]?\d+)?)f(32|64)$', c) or re.match(r'^(-?\d+(?:\.\d+)?(?:[eE][-+]?\d+)?)f(32|64)$', c)
         if m: return Opaque(('float', float(m.group(1))))
+        mv = re.match(r'^std::(result::Result|option::Option)::<.*>::(Ok|Err|Some)\((.*)\)$', c) or re.match(r'^std::(option::Option)::<.*>::(None)()$', c)
+        if mv:
+            # constant of a std enum: Result::<..>::Err(UnitStruct()) and the like
+            inner = mv.group(3).strip()
+            if mv.group(2) == 'None': return none()
+            if re.fullmatch(r'[A-Za-z_0-9:<>]+\(\)', inner): val = Agg(strip_generics(inner[:-2]).split('::')[-1], [])
+            else: val = self.const(fr, inner)
+            return {'Ok': ok, 'Err': err, 'Some': some}[mv.group(2)](val)
         mc = re.match(r'^(?:([a-z_0-9]+)::)?(.*)::([A-Za-z_0-9]+)::([A-Z][A-Z_0-9]*)$', c)
         if mc:
             # associated constant of an inherent impl: `module::Type::NAME` is printed as `module::<impl at ..>::NAME` where it is defined
